@@ -182,7 +182,7 @@ fn tpl_match(parts: &[TplPart], s: &str, plain_numbers_only: bool) -> Tri {
 /// Models of known defects of the implementation ("quirks").  The reference with exactly one quirk switched
 /// on reproduces the implementation's *defective* answer; a mismatch is attributed to a known finding only
 /// if such a model explains it (see c01::explain).  The unquirked reference is the only oracle.
-pub const ALL_QUIRKS: &[&str] = &["strict_inter_per_member", "tpl_number_grammar", "inter_non_object"];
+pub const ALL_QUIRKS: &[&str] = &["strict_inter_per_member", "tpl_number_grammar"];
 
 pub struct Ref<'a> {
     pub env: &'a Env,
